@@ -45,7 +45,7 @@ pub fn scenarios(tier: &str) -> Vec<Scenario> {
 
 pub fn run(tier: &str) -> ! {
 	let mut run = Run::new("C12", tier, "fault_enumeration");
-	let budget = Budget::new(if tier == "thorough" { 5000.0 } else { 150.0 });
+	let budget = Budget::new(if tier == "thorough" { 1500.0 } else { 150.0 });
 	run.set("rule", json!("at every crash point of every edge (see C02) a power loss is simulated: per file the content as of its last fdatasync/fsync/msync is durable; every 4 KiB page of a mapped table/index/ref-count file that was modified since then either reaches the disk or not (all subsets when at most max_full_subsets pages are dirty, otherwise all subsets with at most 2 stale or at most 2 fresh pages), and the unsynced tail of each appended file (log, metadata) is cut at {synced length, +1, +9 (after a record header), middle, -5 (before end marker + checksum), -1, full} (every length in the thorough 'every-tail-length' scenario); file creation, truncation and deletion are durable in program order. Each distinct image is recovered and must equal S_j with j >= number of commits whose log was synced. Options sync_wal = sync_data = true"));
 	run.assumptions = vec![
 		"fault model exactly as the property states it (pages of mapped files, prefix of appended log bytes); reordering of directory operations by a journaling file system is outside it".into(),
